@@ -7,7 +7,7 @@ TB = "Trusted: Kani 0.68/CBMC 6.11/CaDiCaL and Kani's model of Rust+std; the han
 CLAIMS = {
  "C01": dict(
    text="Bounded model checking of the real encode/decode code against an independent spec codec. "+E_FE+": bytes written == spec encoding for every argument value, descriptors = the caller's on the first send only. "+E_BE+": reply/ack bytes == spec encoding. U-level: extract_request_body<T> decodes each body type to exactly the wire bytes; request-code tables over all u32.",
-   note=TB+"Bounds: config payload 4 bytes (1 and 0 in thorough), memory table <= 2 regions, <= 2 descriptors, SHMEM config reply checked on its first 40 bytes only; 4096-byte payloads, 32 regions/descriptors, GPU and backend-initiated channels are not covered by this check yet. Header control words of peers are concrete classes at E level (fully symbolic at U level).",
+   note=TB+"Bounds: config payload 4 bytes (1 and 0 in thorough), memory table <= 2 regions, <= 2 descriptors, SHMEM config reply checked on its first 40 bytes only; 4096-byte payloads, 32 regions/descriptors, GPU channel: the send-only operations (set_scanout, cursor_pos(_hide), set_dmabuf_scanout(2), update_scanout, set_protocol_features); backend-initiated requests and their acks: see C18; GPU replies, display-info/EDID/cursor images are outside the bounds. Header control words of peers are concrete classes at E level (fully symbolic at U level).",
    design="4/C01"),
  "C02": dict(
    text="Composition over the shared spec encoding: frontend half ("+E_FE+": accepted calls write exactly spec::encode(op,args); locally rejected calls - queue index >= max, empty/zero-size region, bad handle, invalid config window, un-negotiated feature - write nothing) and backend half ("+E_BE+": a spec-encoded request reaches the handler behind the Mutex adapter exactly once, with equal argument words / payload bytes / descriptor numbers, and no call otherwise).",
@@ -23,15 +23,15 @@ CLAIMS = {
    design="4/C04"),
  "C05": dict(
    text=E_BE+": the handler is reached only if the request is protocol-valid (region/ring-address/config/enable/uuid/device-state rules, exact descriptor count) - with Kani's panic, overflow, bounds and pointer checks on every path. U-level: check_request_size, check_attached_files (all u32 codes), extract_request_body<T> for 8 body types, set_mem_table, set_config, handle_vring_fd_request with FULLY symbolic header words, sizes and 0..=3 files. Found and now guards F1 (single-region validator, 0aeef32) and F4 (no-fd flag with 2 files, f70f785).",
-   note=TB+"Daemon half (vhost-user-backend handler index/size arithmetic) is not in this check yet. Body <= 72 bytes, <= 2 regions, config payload <= 8 bytes, <= 3 descriptors; the 33-descriptor case is outside.",
+   note=TB+"Daemon half: index/size checks of the per-ring messages and vmm_va_to_gpa under Kani's overflow checks (c14_u_*, c13_u_*); the memory-table and log-base handlers need memory() and are not covered. Body <= 72 bytes, <= 2 regions, config payload <= 8 bytes, <= 3 descriptors; the 33-descriptor case is outside.",
    design="4/C05"),
  "C06": dict(
    text=E_FE+": every reply-bearing and acknowledged operation returns Ok only if the bytes are a reply to that very request (REPLY flag, same code, valid header and body, descriptors exactly when defined) and never fabricates a value; plus recv_body segmentation harnesses. ",
-   note=TB+"Backend-to-frontend proxy, GPU proxy and the FrontendReqHandler server are not in this check yet. Reply control words are concrete classes at E level.",
+   note=TB+"Backend-to-frontend proxy acks (unit level) and the FrontendReqHandler server (E level, arbitrary bodies/descriptors) are included; the GPU proxy's reply parsing is NOT covered (its error conversion io::Error::other(format!) exhausts CBMC's memory and cannot be stubbed). Reply control words are concrete classes at E level.",
    design="4/C06"),
  "C07": dict(
    text="Frontend ("+E_FE+", full 64-bit cached feature words symbolic, so a gate on a wrong bit is distinguishable): a gated operation writes bytes only if its spec gating bit is set (offered PROTOCOL_FEATURES for the protocol-feature exchange, acked for ring enable, DEVICE_STATE for state transfer), else Err and zero sends. Backend ("+E_BE+"): handler reached only if the gating bit is in the acked words; GET_PROTOCOL_FEATURES reply always carries REPLY_ACK.",
-   note=TB+"Histories enter through the symbolic state words (any state a negotiation history can produce is included; the state update itself is C04). Proxy flags (shared object / shmem) not in this check yet.",
+   note=TB+"Histories enter through the symbolic state words (any state a negotiation history can produce is included; the state update itself is C04). Proxy: shared-object / shared-memory requests are refused with nothing written unless the flag is set (e_px_*_gated).",
    design="4/C07"),
  "C08": dict(
    text="Unit harnesses on the real Endpoint code over a ghost socket with delivery cuts / partial accepts: get_sub_iovs_offset vs a reference (all lengths), recv_header / recv_body / recv_data under 2-3 segment deliveries at representative cut positions and under end-of-stream after c bytes (Disconnected iff c==0, PartialMessage/short otherwise, never blocked), send_message under per-call accept limits and one injected EAGAIN (bytes once, in order, descriptors with byte 0 only). Found and now guards F3 (single-recvmsg body read, 07d4ebc).",
@@ -39,8 +39,44 @@ CLAIMS = {
    design="4/C08"),
  "C09": dict(
    text="Ghost descriptor table over the E-level backend runs (valid, invalid, over-stuffed requests with 0..=2 descriptors) and the frontend runs: every descriptor installed by recvmsg is either handed to the handler by value exactly once or closed exactly once by the library when handle_request / the frontend call returns; no double close; descriptors lent for transmission (RawFd / &EventFd arguments) are never closed. U-level: handle_vring_fd_request and check_attached_files with 0..=3 files.",
-   note=TB+"Model level: close(2)/OwnedFd::drop are stubs over the ghost table. Teardown at arbitrary points, >32 descriptors and vhost-user-backend's vring descriptor replacement are not in this check yet.",
+   note=TB+"Model level: close(2)/OwnedFd::drop are stubs over the ghost table. vhost-user-backend: replacing/clearing a ring's kick/call/err descriptor closes the previous one exactly once (c09_u_vring_fds). Teardown at arbitrary points and >32 descriptors are not covered.",
    design="4/C09"),
+ "C10": dict(
+   text="Reduction to the endpoint lock: every path to the shared socket goes through the handle's Mutex, so another caller can interleave with a transaction only at a socket syscall made while the lock is free. The syscall stubs (raw_sendmsg/raw_recvmsg) of all E-level harnesses of Frontend (every operation), Backend (5 operations) and GpuBackend (send-only operations) try_lock the endpoint at every call and the harness asserts the lock was never free between the first send and the last receive of the call and is free again on return. A second lock() by the same caller would cut all paths and is caught by the per-harness reachability witness (success path reachable).",
+   note=TB+"Kani does not execute threads: what is decided is the lock discipline of one call for all argument values, from which atomicity of request/response pairs for any number of callers follows by the Mutex contract (argued, not checked); fairness / completion under contention is std's Mutex. GPU reply-bearing operations are not covered (see C06).",
+   design="4/C10"),
+ "C11": dict(
+   text="The ring state machine as an INDUCTIVE STEP on the real daemon handler (VhostUserHandler built by struct literal, real VringEpollHandler::handle_event as the worker, ghost epoll interest lists and eventfd counters): from every combination of per-ring pre-states (not started / started without kick fd / started with kick fd) x enabled x pending kick on 2 rings, one step of {SET_FEATURES without PF, SET_VRING_KICK new, SET_VRING_KICK none, SET_VRING_CALL, SET_VRING_ENABLE 0/1, GET_VRING_BASE, RESET_DEVICE, guest kick + worker turn} on a symbolic ring preserves 'kick fd in the worker's interest list <=> started and enabled', follows the reference machine, dispatches iff active, consumes a kick only when dispatching and never runs the handler on control messages. Found F5 (kick fd installed on an already started ring never watched; fixed d8b719e).",
+   note=TB+"Ghost epoll: ADD of a present fd / DEL of an absent one are reported as Ok (the code ignores exactly EEXIST/ENOENT); closing a descriptor removes it from all interest lists; level-triggered readiness = counter > 0. The handler/epoll-handler/ring constructors are NOT executed (Kani cannot compile them: ArcSwap drop glue) - objects are built by literal with the per-thread slices given. SET_FEATURES with PROTOCOL_FEATURES and bounded symbolic histories (depth 2-3) are in the thorough tier.",
+   design="4/C11"),
+ "C12": dict(
+   text="Schedules are made symbolic by SEQUENTIALISATION at the points where worker and control thread can be suspended relative to each other, executing the real functions in that order: W1 (epoll_wait returned a now stale event) . C (SET_VRING_ENABLE 0 / GET_VRING_BASE / RESET_DEVICE runs to completion) . worker continues . re-enable . worker turn; and W2 (worker read the kick, ring lock released, handler not yet entered) . C . worker continues. Asserted: no event-handler entry for the ring after the reply of C; a kick is never consumed without being processed and is processed after re-enabling. Found F6 (stale event: kick of a disabled ring consumed and lost; stopped ring still dispatched - fixed 0f98fb0). The W2 window is a genuine race that is recorded as a known finding (KNOWN-FINDING lines), not repaired.",
+   note=TB+"Only these two families of two-thread schedules (each control message atomic w.r.t. the worker step it is nested in); a control thread suspended mid-message, more threads, and eventual processing beyond one re-enable are argued, not checked. No native multi-thread replay exists; the harness order is an execution of the real functions.",
+   design="4/C12"),
+ "C13": dict(
+   text="Address translation only: VhostUserHandler::vmm_va_to_gpa over symbolic mapping tables of 0, 1 and 3 entries obeying exactly what the request server validates (size != 0, no 64-bit wrap; overlaps and any order allowed) and every 64-bit probe address: result == gpa_base + (va - user_base) of the first region containing va, Err iff none, no arithmetic overflow.",
+   note=TB+"NOT covered (needs mmap and GuestMemoryAtomic::memory(), which Kani 0.68 cannot compile): the memory object equals the accepted regions, file visibility, atomicity of failed updates, one notification per change, mappings kept in step by SET_MEM_TABLE / ADD_MEM_REG / REM_MEM_REG.",
+   design="4/C13"),
+ "C14": dict(
+   text="The clauses that do not touch guest memory, on the literal-built daemon handler: SET_VRING_NUM refuses zero / over-maximum sizes and out-of-range indexes (all u32 indexes); SET_VRING_BASE/GET_VRING_BASE round-trip the next-available index and stop the ring; every per-ring message rejects out-of-range indexes (all u32 / u8); SET_FEATURES is accepted iff subset of the offered mask (all 2^128 pairs) and then delivers exactly the bits to the backend and EVENT_IDX to every queue and the backend, enabling all rings iff PROTOCOL_FEATURES is absent; signal_used_queue notifies exactly the most recently installed call descriptor or nothing (3-step symbolic replace/clear history).",
+   note=TB+"NOT covered: SET_VRING_ADDR (translated addresses, used index from guest memory), add_used on the latest memory table (both need memory()); 'an accepted SET_VRING_NUM reaches the queue' (virtio-queue's error type makes the accepting path intractable for CBMC, measured); backend-request-channel flag inheritance; RwLock/Arc backend adapters.",
+   design="4/C14"),
+ "C15": dict(
+   text="Bit-exact page arithmetic of the dirty log: AtomicBitmapMmap::mark_dirty/dirty_at over a 4-byte log window with guard bytes, region start 0..=31 pages and length 1..=32 pages (page aligned, fitting the log), write offset and length over ALL usize values, arbitrary initial log contents: each of the 32 bits afterwards == old bit OR (page touched), guards unchanged, loops bounded by unwinding assertions; BitmapMmapRegion (lock-protected shared handle): slice_at + mark_dirty over all usize base/offset/len, run-time replace, absent bitmap is a no-op.",
+   note=TB+"NOT covered: AtomicBitmapMmap::new's acceptance rule and SET_LOG_BASE (need a GuestMemoryRegion / memory()), persistence across memory-table changes, real mmap, lost updates between concurrent writers (fetch_or is assumed atomic; Kani has no threads).",
+   design="4/C15"),
+ "C17": dict(
+   text="Routing: for ALL 64-bit queues-per-thread masks of 1..=3 worker threads, queue q (each of 0..=3 in its own harness) is registered with exactly one worker - the first whose mask contains q - with event id = number of lower set bits; for representative concrete mask configurations (interleaved, overlapping, bits beyond the queue count) the real handle_event on that worker hands the backend that thread id, that event id and a ring slice whose element at the id is queue q. Listener ids: accepted only above num_queues (all 64-bit ids, 1..=6 queues); one iteration of the REAL worker loop run() with a scripted epoll delivers an accepted listener's event exactly once with exactly its id and then stops on the exit event (id num_queues). Found F7 (ids above 65535 truncated to u16: taken for a queue / the exit event; fixed 53f0a5b).",
+   note=TB+"The per-thread ring slices are built by the harness as the property describes them (VhostUserHandler::new cannot be compiled by Kani), so the slice construction in the constructor itself is NOT covered. Epoll::wait is scripted (two events); the worker's 100-entry event buffer creation (vec![..;100]) is stubbed to avoid a 100-fold unwinding.",
+   design="4/C17"),
+ "C18": dict(
+   text="Server half: the real FrontendReqHandler::handle_request (built by literal) over the ghost socket, one harness per backend request code and flag class, symbolic body / 0..=2 descriptors / reply-ack flag / handler outcome (value, errno 1..=4095, error without errno): application handler invoked exactly once for well-formed requests with exactly the prescribed descriptor (lent, closed afterwards), equal arguments; ack written iff reply-ack and NEED_REPLY, carrying the handler's value resp. the two's-complement negated errno (-EINVAL default). Proxy half: Backend's five operations without REPLY_ACK (bytes == spec, descriptor where defined, nothing awaited) and with the feature flag off (refused, nothing written); acknowledged requests on BackendInternal::send_message/wait_for_ack (NEED_REPLY set, success iff conformant zero ack, foreign acks refused).",
+   note=TB+"The proxy's public methods with REPLY_ACK convert every error into a boxed io::Error, which exhausted CBMC's memory (14/40 GB); that path is checked one level below the public wrapper (the wrapper adds `Ok(guard.send_message(..)?)`). 'k-th ack answers k-th request' follows from one request/one ack per call under the proxy lock (C10).",
+   design="4/C18"),
+ "C19": dict(
+   text="Every operation of the kernel-vhost trait (through a harness type implementing VhostKernBackend), Net::set_backend, Vsock (cid/start/stop) and VhostKernVdpa (13 operations + set_vring_addr) runs against a ghost kernel that captures request number and argument bytes: request == the number computed AT CHECK TIME by uapi/gen.c from the installed <linux/vhost.h> (direction, type, nr, size), argument bytes at the UAPI offsets == the caller's values (all values symbolic), results == what the ghost kernel wrote back; invalid inputs (empty memory table, log region, invalid vDPA ring configuration) issue zero ioctls; vDPA ring addresses are passed unchanged; IOTLB v1/v2 parsers vs UAPI offsets. Found F9 (set_group_asid issued the GET_VRING_GROUP request; fixed b18c060).",
+   note=TB+"NOT covered: the failing-ioctl path (reads errno through __errno_location: no Kani model), the IOTLB writer / dma_map / dma_unmap (call write(2) directly: foreign functions can be neither modelled nor stubbed in Kani 0.68 - measured), kernel-vhost set_vring_addr acceptance and guest->host address translation (guest-memory region lookup did not finish under CBMC), vDPA get/set_config (flexible array). Memory table <= 2 regions.",
+   design="4/C19"),
  "C20": dict(
    text="Bounded model checking (Kani/CBMC) of every VhostUserMsgValidator implementation against an independent reference predicate, with ALL bits of the message struct symbolic (no bound on values; the only bound is the struct size). UNSAT means the validator and the protocol rule agree on every bit pattern.",
    note="Trusted: Kani/CBMC/CaDiCaL; the hand-transcribed rules in harness/spec.rs. VhostUserShMemConfig and the GPU bodies have the default always-true validator and are not enumerated (only u64/vring-state/empty are asserted always-valid). xen feature off.",
